@@ -264,8 +264,8 @@ pub fn run(args: &Args) {
         report.violations(o.viol);
         report.finish(args)
     }
-    let max_n = if thorough { 32 } else { 16 };
-    let cat: Vec<Arc<Shape>> = catalogue(1).into_iter().filter(|s| s.n <= max_n && s.width() <= 9).collect();
+    let max_n = if thorough { 128 } else { 32 };
+    let cat: Vec<Arc<Shape>> = catalogue(if thorough { 2 } else { 1 }).into_iter().filter(|s| s.n <= max_n && s.width() <= 9).collect();
     let mut jobs: Vec<(Arc<Shape>, Cfg, bool)> = vec![];
     for s in &cat {
         for c in configs(thorough) {
